@@ -164,6 +164,7 @@ type Exec struct {
 	curFn       []*ssa.Function
 	tokLitEq    map[string]Bool
 	tokOvfAx    map[int]bool
+	tokB0       map[int]bool // tokens on which ParseInt(_, 0, 64) was applied (base-0 attributes declared)
 	assumeN     int
 	ufs         map[string]bool
 	roundMemo   map[string]Float // floor/ceil/trunc/round of an identical real term is the identical Int variable
@@ -470,6 +471,9 @@ func (e *Exec) inputSyms() []string {
 		}
 		for _, t := range in.Toks {
 			vs = append(vs, tokAttrs(t)...)
+			if e.tokB0[t] {
+				vs = append(vs, fmt.Sprintf("tok%d_b0int", t), fmt.Sprintf("tok%d_b0val", t))
+			}
 		}
 	}
 	return vs
@@ -651,6 +655,14 @@ func synthToken(t int, m map[string]string) string {
 	idv, _ := parseBV(m[a[4]])
 	id := fmt.Sprintf("%x", idv)
 	empty := m[a[5]] == "true"
+	if !isint && !empty && m[fmt.Sprintf("tok%d_b0int", t)] == "true" {
+		// a text that only a base-0 parse accepts: a 0x-prefixed hexadecimal literal
+		bv, _ := parseBV(m[fmt.Sprintf("tok%d_b0val", t)])
+		if int64(bv) < 0 {
+			return fmt.Sprintf("-0x%x", -bv)
+		}
+		return fmt.Sprintf("0x%x", bv)
+	}
 	switch {
 	case empty:
 		return ""
